@@ -424,6 +424,10 @@ pub fn one_with(ctx: &mut Ctx, tape: &[u32], known: &Known) -> Result<(), Fail> 
 
 /// libFuzzer entry: Some(message) on a violation
 pub fn fuzz_one(tape: &[u32]) -> Option<String> {
+    fuzz_case(tape).map(|(m, _)| m)
+}
+
+pub fn fuzz_case(tape: &[u32]) -> Option<(String, Value)> {
     let known = Known { raw_fn_name_conflict: true, trait_patterns: true };
     let case = gen_case(&mut Tape::new(tape), &known);
     if case.attr.contains("debug") && !case.attr.contains("debug = false") {
@@ -432,7 +436,7 @@ pub fn fuzz_one(tape: &[u32]) -> Option<String> {
     match check(&case, false) {
         Ok(_) => None,
         Err(e) if e.starts_with("HARNESS") => None,
-        Err(e) => Some(format!("{e}\nattr: {}\nitem: {}", case.attr, case.item)),
+        Err(e) => Some((e, case.json())),
     }
 }
 
@@ -444,7 +448,17 @@ pub fn run(ctx: &mut Ctx) {
     ctx.assumptions.push("`syn::File` parsing of the output stands in for rustc's parser; inputs that syn cannot parse as an item are discarded, not judged".into());
     let known = Known { raw_fn_name_conflict: true, trait_patterns: true };
     let cases = ctx.n(200_000, 4_000_000);
-    run_tapes_par(ctx, 15, cases, 300, |c, tape| one_with(c, tape, &known));
+    if !run_tapes_par(ctx, 15, cases, 300, |c, tape| one_with(c, tape, &known)) {
+        return;
+    }
+    // E3: committed corpus in every tier, a libFuzzer campaign in the thorough tier
+    crate::fuzzrun::replay_corpus(ctx, "c15_no_panic", fuzz_case);
+    if !ctx.violations.is_empty() {
+        return;
+    }
+    if !ctx.quick() {
+        crate::fuzzrun::campaign(ctx, "c15_no_panic", fuzz_case, 500_000);
+    }
 }
 
 pub fn replay(ctx: &mut Ctx, v: &Value) {
